@@ -66,6 +66,9 @@ class Ref:
                 hi = self.lookup_const(st[3], env_stack) if isinstance(st[3], str) else st[3]
                 for i in range(lo, hi):
                     self._scope(st[4], env_stack, out, scope_path, {st[1]: i})
+            elif k == "splice":
+                blk = self.lookup_const(st[1], env_stack)
+                self.expand(list(blk[1]), env_stack, out, scope_path)
             elif k == "macro":
                 env_stack[0].setdefault("macros", {})[st[1]] = (st[2], st[3])
             elif k == "apply":
@@ -73,7 +76,7 @@ class Ref:
                 if len(st[2]) < len(params):
                     raise IndexError("too few macro arguments")
                 # arguments are evaluated at the call site, then bound in the application's own scope
-                vals = [self.resolve_value(a, env_stack) for a in st[2]]
+                vals = [a if (isinstance(a, tuple) and a[0] == "blockarg") else self.resolve_value(a, env_stack) for a in st[2]]
                 self._scope(body, env_stack, out, scope_path, dict(zip(params, vals)))
             elif k == "if":
                 cond = st[1]
@@ -115,6 +118,8 @@ class Ref:
         return None
 
     def resolve_value(self, v, env_stack):
+        if isinstance(v, tuple) and v[0] == "dec":
+            return self.resolve_value(v[1], env_stack) - 1
         if isinstance(v, str):
             for f in reversed(env_stack):
                 if v in f["consts"]:
@@ -213,6 +218,10 @@ def render(program, rng, indent=0):
     pad = " " * indent
 
     def num(v):
+        if isinstance(v, tuple) and v[0] == "dec":
+            return f"{v[1]} - 1"
+        if isinstance(v, tuple) and v[0] == "blockarg":
+            return "{\n" + render(list(v[1]), rng, indent + 2) + "\n" + pad + "}"
         if isinstance(v, str):
             return v
         if v < 0:
@@ -236,6 +245,8 @@ def render(program, rng, indent=0):
             out.append(f"{pad}{st[1]}:")
         elif k == "const":
             out.append(f"{pad}{st[1]} := {num(st[2])}")
+        elif k == "splice":
+            out.append(f"{pad}{{{{ {st[1]} }}}}")
         elif k == "macro":
             out.append(f"{pad}.macro {st[1]}({', '.join(st[2])}) {{")
             out.append(render(st[3], rng, indent + 2))
